@@ -46,6 +46,15 @@ pub fn read_varint<R: Read>(reader: &mut R) -> io::Result<(u64, usize)> {
         return Ok((0, 1));
     }
 
+    // A u64 has at most 8 value bytes: a larger length byte is not a varint (damaged or
+    // truncated file), and 255 would overflow the byte count computed below
+    if no_bytes > 8 {
+        return Err(io::Error::new(
+            io::ErrorKind::InvalidData,
+            format!("invalid varint: length byte {}", no_bytes),
+        ));
+    }
+
     // Read bytes and assemble value
     let mut value = 0u64;
     for _ in 0..no_bytes {
